@@ -10,6 +10,7 @@ import (
 	"strings"
 	"sync"
 	"testing"
+	"time"
 
 	sdk "github.com/cosmos/cosmos-sdk/types"
 	"github.com/ethereum/go-ethereum/common"
@@ -36,6 +37,9 @@ const rule = "simulated Parlia chains (N in 1..9 validators from drawn secp256k1
 	"distinct by (N0, E, sequence of set-change kinds, set of rejection classes)"
 
 const clientName = "bsc-sim"
+
+// expirySeconds is the trusting period of expiry-mode cases (see runChain).
+const expirySeconds = 8
 
 var (
 	baseOnce sync.Once
@@ -76,6 +80,7 @@ type world struct {
 	m          *Model
 	prevHash   common.Hash // hash of the head's parent
 	headTime   uint64
+	expiry     bool // short trusting period: old consensus states expire and are pruned while the chain runs
 	gasMode    int
 	former     []common.Address // addresses that were in force once
 	log        []stepLog
@@ -151,7 +156,7 @@ func drawSets(t *rapid.T, keys []bscsim.Key) [][]common.Address {
 				free = append(free, i)
 			}
 		}
-		kind := rapid.SampledFrom([]string{"same", "grow", "grow", "shrink", "shrink", "replace", "replace", "fresh"}).Draw(t, fmt.Sprintf("set%d_kind", s))
+		kind := rapid.SampledFrom([]string{"same", "grow", "grow", "shrink", "shrink", "replace", "replace", "fresh", "to_one"}).Draw(t, fmt.Sprintf("set%d_kind", s))
 		next := append([]int{}, cur...)
 		switch kind {
 		case "grow":
@@ -168,6 +173,11 @@ func drawSets(t *rapid.T, keys []bscsim.Key) [][]common.Address {
 				next = append([]int{}, drop[k:]...)
 			} else {
 				kind = "replace"
+			}
+		case "to_one": // collapse to a single validator (its switch happens on the epoch header itself)
+			next = []int{cur[rapid.IntRange(0, len(cur)-1).Draw(t, "survivor")]}
+			if rapid.Bool().Draw(t, "survivor_new") && len(free) > 0 {
+				next = []int{free[0]}
 			}
 		case "fresh":
 			p2 := rapid.Permutation(all).Draw(t, "fresh_order")
@@ -247,13 +257,17 @@ func (w *world) skeleton(t *rapid.T, number uint64, coinbase common.Address, dif
 	default:
 		h.GasUsed = rapid.Uint64Range(0, h.GasLimit).Draw(t, "gas_used_v")
 	}
-	switch rapid.IntRange(0, 3).Draw(t, "time_kind") {
-	case 0:
-		h.Time = w.headTime // not increasing: the property puts no rule on time
-	case 1:
-		h.Time = rapid.Uint64Range(0, 1<<40).Draw(t, "time_any")
-	default:
-		h.Time = w.headTime + 3
+	if w.expiry {
+		h.Time = uint64(w.ctx.BlockTime().Unix()) // honest clock: the head never expires, old heights do
+	} else {
+		switch rapid.IntRange(0, 3).Draw(t, "time_kind") {
+		case 0:
+			h.Time = w.headTime // not increasing: the property puts no rule on time
+		case 1:
+			h.Time = rapid.Uint64Range(0, 1<<40).Draw(t, "time_any")
+		default:
+			h.Time = w.headTime + 3
+		}
 	}
 	if rapid.IntRange(0, 3).Draw(t, "bloom_kind") == 0 {
 		copy(h.Bloom[:], rbytes(t, "bloom", 256))
@@ -683,6 +697,15 @@ func (w *world) buildInvalid(t *rapid.T, class string) *candidate {
 	return nil
 }
 
+// tick advances the block time in expiry mode.
+func (w *world) tick(t *rapid.T) {
+	if !w.expiry {
+		return
+	}
+	d := rapid.IntRange(0, 2).Draw(t, "seconds_pass")
+	w.ctx = w.ctx.WithBlockTime(w.ctx.BlockTime().Add(time.Duration(d) * time.Second))
+}
+
 // storeDump dumps the client's prefix store.
 func (w *world) storeDump(ctx sdk.Context) kit.Dump {
 	st := w.c.App.XIBCKeeper.ClientKeeper.ClientStore(ctx, clientName)
@@ -743,6 +766,11 @@ func (w *world) history() string {
 // submit feeds one candidate and compares client and model.
 func (w *world) submit(t *rapid.T, cd *candidate) bool {
 	w.r.Step()
+	if w.expiry {
+		if cd.h.Time != uint64(w.ctx.BlockTime().Unix()) && cd.rule == "" {
+			kit.Failf("expiry mode: valid header time %d is not the block time", cd.h.Time)
+		}
+	}
 	m := w.m
 	c := describe(cd.h, cd.sealedBy)
 	viol := m.Violations(c)
@@ -800,6 +828,15 @@ func (w *world) submit(t *rapid.T, cd *candidate) bool {
 		if change != "same" {
 			w.realChange = true
 			w.former = append(w.former, oldVals...)
+		}
+		if s := sortedAddrs(m.Vals); len(s) > 1 {
+			asc := true
+			for i := range s {
+				asc = asc && s[i] == m.Vals[i]
+			}
+			if !asc {
+				w.r.Label("switch:list_carried_unsorted")
+			}
 		}
 	}
 	w.prevHash = cd.h.ParentHash
@@ -891,6 +928,19 @@ func runChain(t *rapid.T, r *rec.Recorder) {
 	if nonEpochGenesis {
 		g += uint64(rapid.IntRange(1, int(E)-1).Draw(t, "genesis_offset"))
 	}
+	// expiry mode: trusting period of expirySeconds, block time advances 0..2 s before every
+	// submission (at most 4 per height, so the head's consensus state never expires) and header
+	// times follow the block time: older consensus states expire and are pruned inside the window
+	trusting := uint64(1 << 40)
+	if rapid.IntRange(0, 5).Draw(t, "expiry_mode") == 0 {
+		if kf.Listed("C09", "prune-deletes-signer") {
+			r.Exclude("prune-deletes-signer")
+		} else {
+			w.expiry = true
+			trusting = expirySeconds
+			r.Label("case:expiry_mode")
+		}
+	}
 	w.gasMode = rapid.IntRange(0, 5).Draw(t, "gas_mode")
 	var gas0 uint64
 	switch w.gasMode {
@@ -927,7 +977,7 @@ func runChain(t *rapid.T, r *rec.Recorder) {
 	}
 	cs := &bsctypes.ClientState{
 		Header: *gh.ToProto(), ChainId: w.chainID, Epoch: E, BlockInteval: 3, Validators: vals,
-		ContractAddress: rbytes(t, "contract", 20), TrustingPeriod: 1 << 40,
+		ContractAddress: rbytes(t, "contract", 20), TrustingPeriod: trusting,
 	}
 	cons := &bsctypes.ConsensusState{Timestamp: gh.Time, Height: cs.Header.Height, Root: gh.Root.Bytes()}
 	w.cfg = map[string]interface{}{"N0": len(w.sets[0]), "E": E, "genesis": g, "chain_id": w.chainID, "gas0": gas0,
@@ -944,6 +994,9 @@ func runChain(t *rapid.T, r *rec.Recorder) {
 		return
 	}
 	kit.Must(err, "CreateClient")
+	if !member(w.sets[0], gSealer) {
+		r.Label("genesis:sealed_by_outsider")
+	}
 	switch {
 	case g == 0:
 		r.Label("genesis:height0")
@@ -971,6 +1024,7 @@ func runChain(t *rapid.T, r *rec.Recorder) {
 		// invalid candidates first (0..3), then the valid header of this height
 		nInv := rapid.SampledFrom([]int{0, 0, 0, 1, 1, 1, 2, 2, 3}).Draw(t, "invalid_here")
 		for j := 0; j < nInv; j++ {
+			w.tick(t)
 			start := rapid.IntRange(0, len(invalidClasses)-1).Draw(t, "class")
 			if (w.m.HeadNum+1)%E == 0 && rapid.IntRange(0, 2).Draw(t, "epoch_bias") == 0 {
 				for k, cl := range invalidClasses { // epoch heights are rare: prefer the epoch-only classes there
@@ -1006,6 +1060,7 @@ func runChain(t *rapid.T, r *rec.Recorder) {
 			}
 			w.classes[family] = true
 		}
+		w.tick(t)
 		sealer := w.pickEligible(t)
 		in := w.m.InTurn(sealer, w.m.HeadNum+1)
 		d := w.lastDistance(sealer)
@@ -1046,6 +1101,9 @@ func runChain(t *rapid.T, r *rec.Recorder) {
 	}
 	sort.Slice(heights, func(i, j int) bool { return heights[i] < heights[j] })
 	for _, n := range heights {
+		if w.expiry {
+			break // expired consensus states are pruned by design
+		}
 		w.checkRoot(t, n)
 	}
 
